@@ -265,6 +265,10 @@ def commands(trees):
         {"label": "diff", "prog": "ascmhl", "args": ["diff", good], "end": "returns"},
         {"label": "debug verify", "prog": "ascmhl-debug", "args": ["verify", good], "end": "returns"},
         {"label": "debug hash", "prog": "ascmhl-debug", "args": ["hash", "-h", "md5", os.path.join(good, "a.txt")], "end": "returns"},
+        # verbose runs: whatever the checker thread does must not show up among the command's own lines
+        {"label": "info -v", "prog": "ascmhl", "args": ["info", "-v", good], "end": "returns"},
+        {"label": "diff -v", "prog": "ascmhl", "args": ["diff", "-v", good], "end": "returns"},
+        {"label": "debug verify -v", "prog": "ascmhl-debug", "args": ["verify", "-v", good], "end": "returns"},
         {"label": "info no history (exit 30)", "prog": "ascmhl", "args": ["info", nohist], "end": "raises"},
         {"label": "diff no history (exit 30)", "prog": "ascmhl", "args": ["diff", nohist], "end": "raises"},
         {"label": "debug verify altered (exit 11)", "prog": "ascmhl-debug", "args": ["verify", bad], "end": "raises"},
@@ -404,6 +408,11 @@ def plan(tier, seed, cmds):
             for ci in range(len(cmds)):
                 if ci not in main_cmds:
                     runs.append((ci, b, "1.2.0"))
+    verbose = [by["info -v"], by["diff -v"], by["debug verify -v"]]
+    for b in fixed:
+        if b["name"] in ("newer", "malformed-nightly-delayed-0.5s", "http-503-delayed-0.5s", "runtime-error-delayed-0.5s", "connection-error", "not-json", "newer-delayed-0.5s") or tier != "quick":
+            for ci in verbose:
+                runs.append((ci, b, "1.2.0"))
     # other installed versions: the real one of this environment (a dev build), a pre-release, one equal to / above the answer
     for cur in (None, "2.0rc1", "1.3", "9.9", "1.3.dev1", "0.0.1"):
         for b in (key if tier == "quick" else fixed):
@@ -596,7 +605,7 @@ def replay(rep, data):
 RULE = ("subprocess runs of the real click groups with requests.get scripted through sitecustomize: 37 fixed server behaviours (immediate / 0.5 s / 3 s / 30 s answers; "
         "newer, older, equal, pre-, dev-, post-release, epoch, local, malformed, empty, missing, null, number, list tag_name; non-JSON, empty, truncated, list, string, null "
         "bodies; HTTP 304/404/500/503; requests ConnectionError/ConnectTimeout/SSLError; ValueError, RuntimeError, OSError, UnicodeDecodeError) plus seeded random ones "
-        "(structured PEP 440 strings in assorted spellings, odd bodies, statuses, exceptions, delays) x 13 commands (5 succeeding, 8 ending in exit 30 / 11 / 2 / 1 / --help "
+        "(structured PEP 440 strings in assorted spellings, odd bodies, statuses, exceptions, delays) x 16 commands (8 succeeding, three of them with -v, 8 ending in exit 30 / 11 / 2 / 1 / --help "
         "/ --version) x installed versions (1.2.0, the real dev build, pre-release, equal, above, below); every run is compared with a reference run (refused connection) "
         "and with the model's prediction.  Non-trivial: every run whose server is not the reference one.")
 LEVEL_NOTE = ("proof over the two-thread model for all servers and all schedules; the real scheduler, interpreter shutdown with a live daemon thread and wall-clock "
